@@ -49,6 +49,9 @@ BpCalls ==
     \cup {[C0 EXCEPT !.op = o, !.p = p, !.q = q] : o \in {"rename", "link"}, p \in {AbsP(<<"f">>), RelP(<<"f">>), AbsP(<<"a">>)},
                                                     q \in BpPaths}
     \cup {[C0 EXCEPT !.op = "getwd"]}
+    \* Sub through the wrapper (absolute directories), then a mutator through what it returns
+    \cup {[C0 EXCEPT !.op = o, !.p = AbsP(d), !.q = RelP(<<"n">>), !.data = <<3>>] : o \in {"subwrite", "submkdir"},
+              d \in {<<>>, <<"a">>, <<"f">>, <<"b">>, <<"..">>, <<"a", "..", "..", "a">>, <<"w", "B">>}}
     \cup {[C0 EXCEPT !.op = "glob", !.p = p] : p \in {AbsP(<<"*">>), AbsP(<<"a", "*">>), AbsP(<<"..", "*">>), AbsP(<<"?">>), RelP(<<"*">>)}}
     \cup {[C0 EXCEPT !.op = "walk", !.p = p, !.n = k, !.flag = <<"SkipDir">>] : p \in {AbsP(<<>>), AbsP(<<"a">>), AbsP(<<"f">>)}, k \in {0, 2}}
 
@@ -90,7 +93,7 @@ WrapCalls(s) ==
     \cup {[C0 EXCEPT !.op = "chmod", !.p = p, !.perm = 511] : p \in Paths}
     \cup {[C0 EXCEPT !.op = "chtimes", !.p = p, !.n = 7] : p \in Paths}
     \cup {[C0 EXCEPT !.op = o, !.p = p, !.uid = u, !.gid = g] : o \in {"chown", "lchown"}, p \in Paths, u \in {1001, -1}, g \in {1001, -1}}
-    \cup {[C0 EXCEPT !.op = o, !.p = p, !.q = RelP(<<"a">>), !.data = <<3>>] : o \in {"subwrite", "submkdir"}, p \in Paths \cup {WorkP}}
+    \cup {[C0 EXCEPT !.op = o, !.p = p, !.q = RelP(<<"a">>), !.data = <<3>>] : o \in {"subwrite", "submkdir"}, p \in Paths \cup {WorkP, AbsP(<<>>)}}
     \* enumeration through the wrapper (C14); FailFS's Glob is a composite whose consultations are not specified
     \cup {[C0 EXCEPT !.op = "walk", !.p = p, !.n = k, !.flag = <<a>>] : p \in {WorkP}, k \in {0, 2}, a \in {"SkipDir", "SkipAll"}}
     \cup (IF Kind = "failfs" THEN {} ELSE {[C0 EXCEPT !.op = "glob", !.p = AbsP(<<"w", g1>>)] : g1 \in {"*", "a*", "?"}}
